@@ -632,6 +632,29 @@ def collapse(repo: Repo) -> List[Ob]:
               and src(x.value.value) == x.targets[0].id and any(isinstance(y, ast.Name) and y.id in idx_names for y in ast.walk(x.value.slice))]
         good = bool(sl) and bool(idx)
         lvl = "Vector" if "measure_vector" in src(loop) else "Matrix"
+        # the axis that is sliced is the measured member's *current* position: the member list shrinks inside the loop, so the
+        # position has to be looked up in that list in the same iteration (a position computed before the loop goes stale)
+        shrinking = {src(method_call(c)[0]) for c in ast.walk(loop) if isinstance(c, ast.Call) and method_call(c) and method_call(c)[1] == "remove" and c.args and src(c.args[0]) == src(loop.target).split(",")[-1].strip(" ()")}
+        lvar = src(loop.target).split(",")[-1].strip(" ()")
+        if good and shrinking:
+            from ..model import single_defs
+            inloop = {x.targets[0].id: x.value for x in ast.walk(loop) if isinstance(x, ast.Assign) and len(x.targets) == 1 and isinstance(x.targets[0], ast.Name)}
+            stale = None
+            for x in idx:
+                pos = x.targets[0].slice
+                for _ in range(3):
+                    if isinstance(pos, ast.Name) and pos.id in inloop:
+                        pos = inloop[pos.id]
+                live = any(isinstance(c, ast.Call) and method_call(c) and method_call(c)[1] == "index" and src(method_call(c)[0]) in shrinking and c.args and src(c.args[0]) == lvar for c in ast.walk(pos))
+                live = live or any(isinstance(y, ast.Name) and y.id in inloop and any(isinstance(c, ast.Call) and method_call(c) and method_call(c)[1] == "index" and src(method_call(c)[0]) in shrinking
+                                                                                          for c in ast.walk(inloop[y.id])) for y in ast.walk(pos))
+                if not live:
+                    stale = x
+            if stale is not None:
+                obs.append(bad("COLLAPSE", ps, f"sequential-conditioning@{lvl}", ("C04", "C05"), stale,
+                               f"`{src(stale)[:60]}`: the sliced axis is not looked up in the shrinking member list `{sorted(shrinking)[0]}` inside the loop – after the first measured member is removed "
+                               "the remaining positions shift, so a position computed beforehand addresses another subsystem's axis unless the members are measured in tensor order"))
+                continue
         (obs.append(ok("COLLAPSE", ps, f"sequential-conditioning@{lvl}", ("C04", "C05"), loop, "the tensor is sliced by each drawn outcome before the next subsystem's marginal is computed")) if good else
          obs.append(bad("COLLAPSE", ps, f"sequential-conditioning@{lvl}", ("C04", "C05"), loop, "the joint tensor is not sliced by the drawn outcome inside the loop: later subsystems are sampled from the unconditioned state")))
     return obs
